@@ -37,7 +37,9 @@ class StageSpec:
     maxj: int | None = None       # stage-level _max_jumps
     split: dict | None = None     # OR-split: {downstream stage index: bool value of its split condition}; None = AND-split
     # pre-declared synthetic children (implementation-only family, harness/synth_suites.py; NOT part of the model's spec line):
-    # [{"owner": "B" | "A", "tasks": [[outcome, ...]]}, ...]  B = STAGE_BEFORE, A = STAGE_AFTER
+    # [{"owner": "B" | "A", "tasks": [[outcome, ...]]}, ...]  B = STAGE_BEFORE, A = STAGE_AFTER; optional "req": k = this child has the
+    # k-th child of the same list as its requisite (a CHAIN of before- / after-stages, as tests/test_synthetic_stage_edge_cases.py
+    # declares it: requisite_stage_ref_ids={sibling ref}); children without "req" are the initial ones (is_initial())
     synth: list | None = None
 
 
@@ -71,6 +73,18 @@ class Spec:
         for i, s in enumerate(self.stages):
             for ch in (s.synth or []):
                 out.append((i, ch["owner"], [list(t) for t in ch["tasks"]]))
+        return out
+
+    def child_reqs(self) -> list[int | None]:
+        """per child (storage order): the stage index of the sibling child it requires, or None"""
+        out: list[int | None] = []
+        base = len(self.stages)
+        for s in self.stages:
+            kids = s.synth or []
+            for ch in kids:
+                k = ch.get("req")
+                out.append(None if k is None else base + int(k))
+            base += len(kids)
         return out
 
     def scripts(self, s: int) -> list[list[str]]:
@@ -146,6 +160,7 @@ MSG_CODE = {
     "StartWorkflow": "SW", "StartStage": "SS", "StartTask": "ST", "RunTask": "RT", "CompleteTask": "CT",
     "CompleteStage": "CS", "SkipStage": "SK", "CancelStage": "XS", "CompleteWorkflow": "CW", "CancelWorkflow": "XW",
     "JumpToStage": "JS", "SignalStage": "SG", "ContinueParentStage": "CP",
+    "PauseTask": "PT", "ResumeStage": "RS",      # pause / resume dimension (implementation-only, harness/synth_suites.py)
 }
 
 
@@ -330,6 +345,7 @@ class Engine:
         # pre-declared synthetic children, built the way the repo's tests build them (tests/test_synthetic_stage_edge_cases.py):
         # a StageExecution with synthetic_stage_owner + parent_stage_id, no requisites, stored with the workflow
         n_top = len(stages)
+        child_reqs = self.spec.child_reqs()
         for c, (par, own, scripts) in enumerate(self.spec.children()):
             from stabilize.models.stage import SyntheticStageOwner
 
@@ -337,6 +353,7 @@ class Engine:
             tasks = [TaskExecution.create(name=f"t{t}", implementing_class=f"T_{i}_{t}", stage_start=(t == 0),
                                           stage_end=(t == len(scripts) - 1)) for t in range(len(scripts))]
             ch = StageExecution(ref_id=f"s{i}", type="scripted", name=f"s{i}", context={}, tasks=tasks,
+                                requisite_stage_ref_ids=({f"s{child_reqs[c]}"} if child_reqs[c] is not None else set()),
                                 synthetic_stage_owner=(SyntheticStageOwner.STAGE_BEFORE if own == "B" else SyntheticStageOwner.STAGE_AFTER))
             ch.parent_stage_id = stages[par].id
             stages.append(ch)
@@ -386,7 +403,7 @@ class Engine:
             return f"SS.{s}.{payload.get('retry_count') or 0}"
         if c in ("CS", "SK", "XS"):
             return f"{c}.{s}"
-        if c in ("ST", "RT"):
+        if c in ("ST", "RT", "PT"):
             return f"{c}.{s}.{self.task_ids.get(payload.get('task_id'), ('?', '?'))[1]}"
         if c == "CT":
             return f"CT.{s}.{self.task_ids.get(payload.get('task_id'), ('?', '?'))[1]}.{payload.get('status')}"
@@ -597,6 +614,21 @@ class Engine:
 
     def sweep(self) -> None:
         self.processor.run_recovery()
+
+    # ---- operator pause / resume (public API, as tests/test_workflow_control.py and the monitor UI use it) ----------
+    def pause(self) -> None:
+        """store.pause(): the workflow row goes PAUSED; RunTask deliveries then park their task and stage (PauseTask)"""
+        self.store.pause(self.wf_id, paused_by="verif")
+
+    def unpause(self) -> None:
+        """Orchestrator.unpause(): one ResumeStage per stage that is PAUSED right now (the first one handled lifts the workflow-level pause)"""
+        from stabilize import Orchestrator
+
+        Orchestrator(self.queue, self.store).unpause(self._wf_obj)      # (a fresh one: store / queue objects are rebuilt by restart())
+
+    def resume(self) -> None:
+        """store.resume(): PAUSED -> RUNNING on the workflow row, if it is (still) PAUSED; closes the pause record"""
+        self.store.resume(self.wf_id)
 
     def locked_ids(self) -> set[int]:
         """rows claimed by a worker that never acknowledged them (the dead worker's lock has not lapsed yet)"""
